@@ -291,7 +291,15 @@ def identical(I, a, b):
     if isinstance(a, Sym) or isinstance(b, Sym):
         if isinstance(a, (tuple, IList, IDict, SList, SDict, ISet)) or isinstance(b, (tuple, IList, IDict, SList, SDict, ISet)):
             return False
-        return S(I.to_term(a) == I.to_term(b))
+        ta, tb = I.to_term(a), I.to_term(b)
+        if ta.eq(tb):
+            return True
+        if a is None or b is None or isinstance(a, bool) or isinstance(b, bool):
+            return S(ta == tb)
+        # two equal str/int/float/bytes values need not be the same object: identity of equal
+        # non-singleton values is an unknown (None, bools and object references are exact)
+        same_obj = z3.Or(is_none(ta), is_bool(ta), is_ref(ta), I.fresh("same_object", z3.BoolSort()))
+        return S(z3.And(ta == tb, same_obj))
     if a is None or b is None or isinstance(a, bool) or isinstance(b, bool):
         return a is b
     if is_prim(a) and is_prim(b):
